@@ -10,7 +10,7 @@ pub const SUBST: [u8; 9] = [0x00, 0x01, 0x02, 0x0A, 0x5C, 0x7F, 0x80, 0xFE, 0xFF
 pub const TAIL_ALPHABET: [u8; 8] = [0x00, 0x01, 0x0A, 0x5C, 0x80, 0xC3, 0xFE, 0xFF];
 /// a valid two-byte UTF-8 character, written over two bytes at every offset (byte-indexed string slicing)
 pub const UTF8_PAIR: [u8; 2] = [0xC3, 0xA9];
-pub const TEXT_NUMBERS: [&str; 7] = ["", "-1", "256", "65536", "4294967296", "99999999999999999999", "x"];
+pub const TEXT_NUMBERS: [&str; 9] = ["", "0", "1", "-1", "256", "65536", "4294967296", "99999999999999999999", "x"];
 pub const MAX_DATAGRAM: usize = 65_507;
 
 #[derive(Clone, Copy, Debug, PartialEq, Eq)]
